@@ -241,8 +241,42 @@ fn delay_case(lens: &[usize], n_in: usize, n_out: usize, wrapper: usize) -> Opti
 }
 
 fn delay_case_calls(lens: &[usize], n_in: usize, n_out: usize, wrapper: usize, calls: usize) -> Option<Bad> {
-    let tag = format!("Delay rings {lens:?} input buffers {n_in} output buffers {n_out} wrapper {}", ["plain", "BoxedNode", "Box<dyn FnMut>", "GraphNode"][wrapper]);
-    let rings = || -> Vec<Fixed<Vec<f32>>> { lens.iter().enumerate().map(|(c, &l)| Fixed::from((0..l).map(|i| -((c * 1000 + i + 1) as f32) / 256.0).collect::<Vec<f32>>())).collect() };
+    delay_case_off(lens, n_in, n_out, wrapper, calls, 0, 0)
+}
+
+/// `off`: the rings had an earlier life -- their first index is `off % len` when the node gets them,
+/// reached by `how` = 0: set_first, 1: that many pushes, 2: into_raw_parts / from_raw_parts
+fn delay_case_off(lens: &[usize], n_in: usize, n_out: usize, wrapper: usize, calls: usize, off: usize, how: usize) -> Option<Bad> {
+    let tag = format!("Delay rings {lens:?}{} input buffers {n_in} output buffers {n_out} wrapper {}", if off == 0 { String::new() } else { format!(" (first index moved to {off} mod len by {})", ["set_first", "earlier pushes", "from_raw_parts"][how]) }, ["plain", "BoxedNode", "Box<dyn FnMut>", "GraphNode"][wrapper]);
+    // raw slot i of channel c holds a coded value; logical position p of the initial content is raw slot (off + p) % l
+    let raw = |c: usize, i: usize| -((c * 1000 + i + 1) as f32) / 256.0;
+    let rings = || -> Vec<Fixed<Vec<f32>>> {
+        lens.iter()
+            .enumerate()
+            .map(|(c, &l)| {
+                let o = off % l;
+                match how {
+                    0 => {
+                        let mut r = Fixed::from((0..l).map(|i| raw(c, i)).collect::<Vec<f32>>());
+                        r.set_first(o);
+                        r
+                    }
+                    1 => {
+                        // o pushes of the values that belong at the end of the logical order
+                        let mut r = Fixed::from((0..l).map(|i| if i < o { 0.0 } else { raw(c, i) }).collect::<Vec<f32>>());
+                        for i in 0..o {
+                            r.push(raw(c, i));
+                        }
+                        r
+                    }
+                    _ => {
+                        let (_, data) = Fixed::from((0..l).map(|i| raw(c, i)).collect::<Vec<f32>>()).into_raw_parts();
+                        Fixed::from_raw_parts(o, data)
+                    }
+                }
+            })
+            .collect()
+    };
     let mut g: G = Graph::with_capacity(4, 4);
     let s = g.add_node(NodeData::new(Box::new(Src { k: 0, calls: 0 }) as DynNode, sentinel_bufs(n_in)));
     let node: DynNode = match wrapper {
@@ -277,7 +311,7 @@ fn delay_case_calls(lens: &[usize], n_in: usize, n_out: usize, wrapper: usize, c
                     let pos = call * LEN + tt;
                     let l = lens[ch];
                     if pos < l {
-                        -((ch * 1000 + pos + 1) as f32) / 256.0
+                        raw(ch, (off + pos) % l)
                     } else {
                         let q = pos - l;
                         src_val(0, ch, q % LEN, q / LEN)
@@ -498,7 +532,7 @@ fn replay(v: &Value) -> Option<String> {
             };
             stateless_case(kind, us("wrapper"), &list("in_bufs"), us("n_out")).map(|e| format!("{}: {}", e.0, e.1))
         }
-        "delay" => delay_case(&list("lens"), us("n_in"), us("n_out"), us("wrapper")).map(|e| format!("{}: {}", e.0, e.1)),
+        "delay" => delay_case_off(&list("lens"), us("n_in"), us("n_out"), us("wrapper"), if us("calls") == 0 { 4 } else { us("calls") }, us("off"), us("how")).map(|e| format!("{}: {}", e.0, e.1)),
         "signal" => signal_case(us("n_out"), us("wrapper")).map(|e| format!("{}: {}", e.0, e.1)),
         "delay_soak" => delay_case_calls(&list("lens"), 2, 2, 0, if us("calls") == 0 { 300 } else { us("calls") }).map(|e| format!("{}: {}", e.0, e.1)),
         "contents" => {
@@ -516,7 +550,7 @@ fn main() {
         let _guard_scope = guard::scoped(&v.to_string());
         ctx.finish_replay(catch(|| replay(&v)).unwrap_or_else(|p| Some(format!("panic: {p}"))));
     }
-    ctx.rule("Sum / SumBuffers: input count 0..=3 x buffers per input 0..=3 (every combination) x output buffers 0..=3 x 11 wrapper types (plain, BoxedNode, BoxedNodeSend, Box<Box<T>>, &mut T, fn pointer, Box<dyn Fn>, Box<dyn FnMut>, nested GraphNode, nested GraphNode whose inner input/output nodes have different buffer counts, nested GraphNode with one more declared input port than connected inputs) x 3 consecutive calls, the wrapped node counting its invocations (exactly one per call, also with zero output buffers); Pass: 0 or 1 input likewise; Delay: per-channel ring lengths over {1,2,63,64,65,130}^(1..=2 channels) x input buffers 0..=3 x output buffers 0..=3 x 4 wrappers x 4 calls with coded initial ring contents; signal node: Box<dyn Signal<Frame=[f32;2]>> over an instrumented source, output buffers 0..=3, 3 calls, 64 pulls per call; sources write position-coded dyadic values (sums exact in f32), outputs start as a sentinel; oracle = per-node reference function; scale probes: Sum / SumBuffers with 4..=8, 16, 33, 100, 255, 256 and 257 inputs (patterned buffer counts), plain and nested-graph wrappers; buffer contents: every assignment of 9 finite content classes (zeros, values below f32::EPSILON, subnormals, tiny with one ordinary sample, ordinary, negative, 2^100-sized, negative zeros, tiny negative) to the buffers of 1..=3 Sum inputs and 1..=3 SumBuffers buffers (oracle: the output lies between the smallest and largest value that SOME order of f32 additions of ALL the terms, or a wider accumulation rounded once, gives), and of 11 classes (also infinities and NaN payloads) to Pass and Delay (rings 1, 17, 64, 65) inputs, compared bit for bit, x 3 wrappers x 2 calls; soak probes: 300 consecutive calls of delay nodes (4 ring-length sets) and of the signal node, 2100 calls of delay nodes with rings of 65535 and 65536 / 65537 samples (the write position wraps twice); distinct by configuration");
+    ctx.rule("Sum / SumBuffers: input count 0..=3 x buffers per input 0..=3 (every combination) x output buffers 0..=3 x 11 wrapper types (plain, BoxedNode, BoxedNodeSend, Box<Box<T>>, &mut T, fn pointer, Box<dyn Fn>, Box<dyn FnMut>, nested GraphNode, nested GraphNode whose inner input/output nodes have different buffer counts, nested GraphNode with one more declared input port than connected inputs) x 3 consecutive calls, the wrapped node counting its invocations (exactly one per call, also with zero output buffers); Pass: 0 or 1 input likewise; Delay: per-channel ring lengths over {1,2,63,64,65,130}^(1..=2 channels) x input buffers 0..=3 x output buffers 0..=3 x 4 wrappers x 4 calls with coded initial ring contents; the same for rings with an earlier life (10 ring-length sets incl. multiples of 64 x first index moved to {1,5,37,63,64,100,191} mod len by set_first, by earlier pushes or by from_raw_parts, 6 calls); signal node: Box<dyn Signal<Frame=[f32;2]>> over an instrumented source, output buffers 0..=3, 3 calls, 64 pulls per call; sources write position-coded dyadic values (sums exact in f32), outputs start as a sentinel; oracle = per-node reference function; scale probes: Sum / SumBuffers with 4..=8, 16, 33, 100, 255, 256 and 257 inputs (patterned buffer counts), plain and nested-graph wrappers; buffer contents: every assignment of 9 finite content classes (zeros, values below f32::EPSILON, subnormals, tiny with one ordinary sample, ordinary, negative, 2^100-sized, negative zeros, tiny negative) to the buffers of 1..=3 Sum inputs and 1..=3 SumBuffers buffers (oracle: the output lies between the smallest and largest value that SOME order of f32 additions of ALL the terms, or a wider accumulation rounded once, gives), and of 11 classes (also infinities and NaN payloads) to Pass and Delay (rings 1, 17, 64, 65) inputs, compared bit for bit, x 3 wrappers x 2 calls; soak probes: 300 consecutive calls of delay nodes (4 ring-length sets) and of the signal node, 2100 calls of delay nodes with rings of 65535 and 65536 / 65537 samples (the write position wraps twice); distinct by configuration");
     let mut evals = 0u64;
     for kind in [Kind::Sum, Kind::SumBuffers, Kind::Pass] {
         for n_in in 0..=(if kind == Kind::Pass { 1 } else { 3 }) {
@@ -575,6 +609,23 @@ fn main() {
                     match catch(|| delay_case(lens, n_in, n_out, w)) {
                         Ok(None) => ctx.observe(common::fnv_str(&case.to_string())),
                         Ok(Some((k, m))) => ctx.violation(&k, case, m, Some(&|| delay_case(lens, n_in, n_out, w).map(|e| e.1))),
+                        Err(p) => ctx.violation("node.panic", case, format!("panic: {p}"), None),
+                    }
+                }
+            }
+        }
+    }
+    // rings with an earlier life: first index moved by set_first / earlier pushes / from_raw_parts
+    for lens in [vec![1usize], vec![2], vec![63], vec![64], vec![65], vec![128], vec![130], vec![192, 64], vec![64, 130], vec![256, 320]] {
+        for off in [1usize, 5, 37, 63, 64, 100, 191] {
+            for how in 0..3usize {
+                for w in [0usize, 3] {
+                    let case = json!({"sys":"delay","lens":lens,"n_in":2,"n_out":2,"wrapper":w,"off":off,"how":how,"calls":6});
+                    let _guard_scope = guard::scoped(&case.to_string());
+                    evals += 1;
+                    match catch(|| delay_case_off(&lens, 2, 2, w, 6, off, how)) {
+                        Ok(None) => ctx.observe(common::fnv_str(&case.to_string())),
+                        Ok(Some((k, m))) => ctx.violation(&k, case, m, Some(&|| delay_case_off(&lens, 2, 2, w, 6, off, how).map(|e| e.1))),
                         Err(p) => ctx.violation("node.panic", case, format!("panic: {p}"), None),
                     }
                 }
